@@ -221,21 +221,24 @@ def _shard_entry(args):
         return ('harness', 'shard %d crashed: %r\n%s' % (shard, e, traceback.format_exc()))
 
 
-def run_sharded(modname, fn, nshards, tier, seed, timeout_s):
-    """Run mod.fn in `nshards` processes; returns list of results; raises HarnessError."""
+def run_sharded(modname, stages, tier, seed, timeout_s):
+    """Run every (fn, nshards) stage of a check module in one process pool; returns the list
+    of shard results; raises HarnessError."""
     ctx = multiprocessing.get_context('fork')
-    jobs = [(modname, fn, i, nshards, tier, seed) for i in range(nshards)]
-    if nshards == 1:
+    jobs = []
+    for fn, nshards in stages:
+        jobs += [(modname, fn, i, nshards, tier, seed) for i in range(nshards)]
+    if len(jobs) == 1:
         outs = [_shard_entry(jobs[0])]
     else:
-        pool = ctx.Pool(min(NCPU, nshards), maxtasksperchild=1)
+        pool = ctx.Pool(min(NCPU, len(jobs)), maxtasksperchild=1)
         try:
             r = pool.map_async(_shard_entry, jobs, chunksize=1)
             try:
                 outs = r.get(timeout=timeout_s)
             except multiprocessing.TimeoutError:
                 pool.terminate()
-                raise HarnessError('watchdog: shards of %s.%s did not finish within %d s (inconclusive, not a violation)' % (modname, fn, timeout_s))
+                raise HarnessError('watchdog: shards of %s did not finish within %d s (inconclusive, not a violation)' % (modname, timeout_s))
         finally:
             pool.terminate()
             pool.join()
